@@ -1048,6 +1048,11 @@ class Processor(object):
         U_list: list
             A list of propagators obtained for the physical implementation.
         """
+        if qc is not None:
+            # The circuit to be implemented is compiled and loaded first
+            # (it was ignored: the propagators of whatever the processor
+            # held before were returned).
+            self.load_circuit(qc)
         if init_state is not None:
             U_list = [init_state]
         else:
@@ -1103,9 +1108,9 @@ class Processor(object):
         U_list: list
             The propagator matrix obtained from the physical implementation.
         """
-        if qc:
+        if qc is not None:
             self.load_circuit(qc)
-        return self.run_analytically(qc=qc, init_state=None)
+        return self.run_analytically(init_state=None)
 
     def run_state(
         self,
